@@ -126,13 +126,148 @@ NAMED = ["sp ace.txt", "q?.txt", "a|b.txt", "per%cent.txt", "per%41.txt", "#frag
          "data.json", "nul.bin"]
 
 
-def named_files(rng):
+# ---- names whose PREFIX (not extension) means something to a URL / path library ----
+# The MIME tables assign a type to a NAME by its extension.  Library helpers that accept "a URL or a
+# path" read more into a string: "<scheme>:" prefixes (RFC 2397 data URLs carry their type before a
+# comma), query / fragment / parameter delimiters, leading and trailing dots, percent escapes,
+# backslashes.  Whatever string the server hands to such a helper, the advertised type is the table
+# entry of the name's extension.
+SCHEMES = ["data", "DATA", "Data", "dAtA", "http", "https", "file", "ftp", "mailto", "urn", "gopher", "javascript",
+           "blob", "x", "c", "zip", "tel"]
+SCHEME_SHAPES = ["{s}:{stem}{e}", "{s}:{stem},{tail}{e}", "{s}:text;charset=x,{stem}{e}", "{s}:;base64,{stem}{e}",
+                 "{s}:a=b,{stem}{e}", "{s}:{stem}{e},", "{s}:{e}", "{s}:{s}:{stem}{e}", "{s}:,{e}", "{s}::{stem}{e}"]
+OTHER_SHAPES = [".{stem}{e}", "{e}", ".{stem}.x{e}", "{stem}{e}.", "{stem}.{stem}{e}", "{stem}{e}?v=1", "{stem}{e}#top", "{stem}{e};type=i",
+                "?{stem}{e}", "#{stem}{e}", ";{stem}{e}", "={stem}{e}", ":{stem}{e}", ",{stem}{e}", "%64ata:{stem}{e}",
+                "data%3A{stem}{e}", "~{stem}{e}", "-{stem}{e}", "@{stem}{e}", "{stem}\\x{e}", "data:\\{stem}{e}",
+                "{stem}?x=1{e}", "{stem}#x{e}", "{stem} {e}", "{stem}{e}.bak", "{stem}{e}~"]
+EXT_POOL = [".csv", ".png", ".html", ".pdf", ".txt", ".gif", ".jpg", ".xml", ".mp3", ".css", ".json", ".tar.gz",
+            ".ps.Z", ".tgz", ".svgz", ".PNG", ".Html", ".zip", ".wav", ".mpeg"]
+PREFIX_DIRS = [("data:dir", "plain{e}"), ("http:dir", "x.y{e}"), ("dir.png", "noext"), ("bundle.tar.gz", "inner{e}"),
+               ("d.html", "data:in{e}"), (".dot.d", "f{e}"), ("q?d", "f{e}"), ("frag#d.gif", "f")]
+
+
+def prefix_names(rng, tier):
+    """[relative path]: every scheme spelling and every shape at least once, extensions rotating
+    from a seeded start; the thorough tier takes the whole product with data-like schemes."""
+    k = rng.randrange(len(EXT_POOL))
     out = []
+
+    def ext():
+        nonlocal k
+        k += 1
+        return EXT_POOL[k % len(EXT_POOL)]
+
+    def fill(shape, s):
+        return shape.format(s=s, stem=rng.choice(["report", "logo", "index", "2024", "a b", "n"]), tail="final", e=ext())
+    for i, s in enumerate(SCHEMES):
+        out.append(fill(SCHEME_SHAPES[0], s))
+        out.append(fill(SCHEME_SHAPES[1 + (i + k) % (len(SCHEME_SHAPES) - 1)], s))
+    for i, shape in enumerate(SCHEME_SHAPES[1:]):
+        out.append(fill(shape, SCHEMES[(i + k) % 4]))          # one of the data spellings
+    if tier == "thorough":
+        for s in SCHEMES[:5]:
+            for shape in SCHEME_SHAPES:
+                for _ in range(3):
+                    out.append(fill(shape, s))
+    for shape in OTHER_SHAPES:
+        out.append(fill(shape, ""))
+    # (a selector containing ".." is refused outright, whatever it names: no such names here)
+    paths = ["n/" + nm for nm in out if nm not in ("", ".") and ".." not in nm]
+    for d, f in PREFIX_DIRS:
+        paths.append("n/" + d + "/" + f.format(e=ext()))
+    # directly below the root: the selector is "/" + name
+    paths += [fill(SCHEME_SHAPES[0], SCHEMES[k % 4]), fill(SCHEME_SHAPES[1], "data"), fill(SCHEME_SHAPES[0], "http")]
+    seen, uniq = set(), []
+    for pth in paths:
+        if pth not in seen:
+            seen.add(pth)
+            uniq.append(pth)
+    return uniq
+
+
+def prefix_names_of(files):
+    return [p for p, _ in files if p.startswith("n/") and p[2:] not in NAMED or "/" not in p]
+
+
+def named_files(rng, tier="quick"):
+    out = []
+    for pth in prefix_names(rng, tier):
+        nm = pth.rsplit("/", 1)[-1]
+        body = b"<html><head><title>T x</title></head></html>\n" if nm.lower().endswith((".html", ".htm")) \
+            else ("content of %r\n" % nm).encode() + rand_bytes(rng, 16)
+        out.append((pth, body))
     for nm in NAMED:
         body = ("<html><head><title>T %s</title></head></html>\n" % "x").encode() if nm.endswith(".html") \
             else ("content of %r\n" % nm).encode() + rand_bytes(rng, 16)
         out.append(("n/" + nm, body))
     return out
+
+
+def pattern_doc(tag, n):
+    """recognisable, position dependent lines '<tag><8 digits depending on line number and tag>' cut to n bytes"""
+    t = tag.encode("ascii")
+    mult = (ord(tag[0]) | 1) * 7919             # documents differ at (nearly) every offset, not only in the tag
+    return b"".join(t + b"%08d\n" % (i * mult % 10 ** 8) for i in range(n // (len(t) + 9) + 1))[:n]
+
+
+# documents for concurrent transfers: (path, tag, size); every one spans several 4096-byte copy blocks
+CONC_DOCS = [("c/a.bin", "A", 5 * 4096 + 7), ("c/b.bin", "B", 4 * 4096), ("c/c.txt", "c", 70001), ("c/d.bin", "D", 65536 + 4096),
+             ("c/e.txt", "e", 3 * 4096 + 1), ("c/f.bin", "F", 2 * 4096 + 4095)]
+LIVE_CONC_DOCS = [("c/x.bin", "X", 262144 + 4097), ("c/y.bin", "Y", 262144 + 1), ("c/z.txt", "z", 262144 + 77),
+                  ("c/w.bin", "W", 3 * 65536 + 5)]
+CONC_SNDBUF = 8192
+
+
+def conc_tree(docs):
+    return [{"path": p, "data": latin(pattern_doc(t, n)), "mtime": 1_700_000_000} for p, t, n in docs]
+
+
+def conc_groups(rng, tier):
+    """(scheduled groups, live groups): each group = {policy/split/seed | client pacing, members: [(path, proto)]};
+    the members of a group are DIFFERENT documents in flight at the same time, one connection each."""
+    sched = []
+    pols = ["burst2", "burst3", "burst5"]
+    splits = ["half", "late", "byte", "third", "most"]
+    n = 8 if tier == "quick" else 40
+    order = []
+    for gi in range(n):
+        size = [2, 3, 4, 2][gi % 4] if gi < 4 else rng.choice([2, 2, 3, 4, 5])
+        while len(order) < size:                      # every protocol syntax in turn, seeded order
+            order += rng.sample(GET_PROTOS, len(GET_PROTOS))
+        protos, order = order[:size], order[size:]
+        docs = rng.sample(CONC_DOCS, size)
+        sched.append({"policy": pols[gi] if gi < 3 else rng.choice(pols + ["random", "random", "roundrobin"]),
+                      "split": splits[gi % len(splits)] if gi < 5 else rng.choice(splits), "seed": rng.randrange(1 << 16),
+                      "members": [(d[0], pr) for d, pr in zip(docs, protos)]})
+    live = []
+    for gi in range(1 if tier == "quick" else 4):
+        size = 3 if gi == 0 else rng.choice([2, 3, 4])
+        protos = rng.sample(["gopher", "sgopher", "gopherplus", "sgopherplus", "http", "https", "gemini", "spartan"], size)
+        if gi == 0 and not any(gen.TLS[x] for x in protos):
+            protos[-1] = "https"
+        docs = rng.sample(LIVE_CONC_DOCS, size)
+        live.append({"rcvbuf": rng.choice([4096, 8192, 16384]), "stall": 0.3, "piece": rng.choice([4096, 16384, 30000]),
+                     "slow_rounds": 30, "members": [(d[0], pr) for d, pr in zip(docs, protos)]})
+    return sched, live
+
+
+def conc_job(mode, group_specs):
+    """the implementation-side job for groups of one mode ('sched' | 'live')"""
+    docs = CONC_DOCS if mode == "sched" else LIVE_CONC_DOCS
+    groups = []
+    for g in group_specs:
+        rq = []
+        for pth, proto in g["members"]:
+            data, tls = gen.request_bytes(proto, sel_of(pth), gplus="+")
+            rq.append({"data": gen.lat(data), "tls": tls})
+        groups.append(dict({k: v for k, v in g.items() if k != "members"}, requests=rq))
+    job = {"op": "c04_concurrent" if mode == "sched" else "c04_live_concurrent", "tree": conc_tree(docs), "groups": groups}
+    if mode == "sched":
+        wd, wt = gen.request_bytes("gopher", "/c/a.bin")
+        job["warmup"] = {"data": gen.lat(wd), "tls": wt}
+    else:
+        job["sndbuf"] = CONC_SNDBUF
+    return job
 
 
 def latin(b):
@@ -213,20 +348,28 @@ def wml_decode(text):
     return lines
 
 
+def name_ext(name):
+    """(stem, extension) of a file NAME: the extension starts at the last dot, unless only dots precede it"""
+    i = name.rfind(".")
+    if i <= 0 or not name[:i].strip("."):
+        return name, ""
+    return name[:i], name[i:]
+
+
 def twin_guess(sel, T):
-    """Independent reading of the documented lookup: suffix aliases (case-insensitive), then one
-    encoding suffix (case-SENSITIVE), then the type of the remaining suffix (case-insensitive),
-    standard types before common ones.  T: dict of dicts (documented tables)."""
-    import posixpath
-    base, ext = posixpath.splitext(sel)
+    """Independent reading of the documented lookup, on the NAME (last path component) alone and without
+    the library: suffix aliases (case-insensitive), then one encoding suffix (case-SENSITIVE), then the
+    type of the remaining suffix (case-insensitive), standard types before common ones.  Nothing else
+    in the name (scheme-like prefixes, URL delimiters) plays a part.  T: dict of dicts (documented tables)."""
+    base, ext = name_ext(sel.rsplit("/", 1)[-1])
     n = 0
     while ext.lower() in T["suffix"] and n < 8:
-        base, ext = posixpath.splitext(base + T["suffix"][ext.lower()])
+        base, ext = name_ext(base + T["suffix"][ext.lower()])
         n += 1
     enc = None
     if ext in T["enc"]:
         enc = T["enc"][ext]
-        base, ext = posixpath.splitext(base)
+        base, ext = name_ext(base)
     ext = ext.lower()
     if ext in T["strict"]:
         return (T["strict"][ext], enc)
@@ -381,6 +524,10 @@ def run(tier):
               "/a.Kml", "/a.K", "/a.tİf", "/a.é", "/a.txt\n", "/a b.txt", "/a.txt ", "/a.tXt",
               "/a.svgz.gz", "/a.tgz.tgz", "/x.tar.gz", "/x.tar.bz2", "/x.tbz2", "/x.txz", "/x.TGZ", "/x.Tgz",
               "/a:b.txt", "/a.data:text", "/weird.\udcae", "/\udcae.txt"]
+    # names with scheme-like prefixes and URL delimiters, below a directory and directly below the root
+    for pth in prefix_names(rng, tier):
+        nm = pth.rsplit("/", 1)[-1]
+        names += ["/p.d/" + nm, "/" + nm, "/" + pth]
     names = sorted(set(names))
     res = impl_run([{"op": "c04_guess", "inputs": names}, {"op": "c04_filemime", "inputs": names}])
     for r in res:
@@ -434,7 +581,8 @@ def run(tier):
 
     tick("component-mime")
     # ---------------- end to end ----------------
-    files = content_files(rng, tier) + named_files(rng)
+    files = content_files(rng, tier) + named_files(rng, tier)
+    prefix_set = set(prefix_names_of(files))
     blk = rand_bytes(rng, BIG_BLK)
     big = blk * BIG_REPS + blk[:BIG_TAIL]
     plain_gz = text_of_size(rng, 5000)
@@ -472,7 +620,7 @@ def run(tier):
     rot = 0
     for p, d in files:
         protos, heads = GET_PROTOS, HEAD_PROTOS
-        if tier == "quick" and len(d) > 8000:
+        if tier == "quick" and (len(d) > 8000 or p in prefix_set):
             # quick tier: the large documents go through a rotating half of the protocol syntaxes
             rot += 1
             protos = [x for k_, x in enumerate(GET_PROTOS) if (k_ + rot) % 2 == 0]
@@ -487,6 +635,12 @@ def run(tier):
                                                     "t/inv.txt", "n/page.html", "n/sp ace.txt", "n/q?.txt")
                   or p.startswith("k/")]
     live_long = [(p, d) for p, d in files if p.startswith("L/")]
+    # some of the prefixed names also through the full handler list and the real server (those the
+    # transforming handlers leave alone: no encoding suffix)
+    pfx_plain = [(p, d) for p, d in files if p in prefix_set and twin_guess(sel_of(p), T)[1] is None
+                 and ":" in p and not p.lower().endswith((".html", ".htm"))]
+    pfx_some = [x for x in pfx_plain if "/" not in x[0]][:2] + [x for x in pfx_plain if x[0].lower().startswith("n/data:")][:2]
+    full_files += pfx_some
     for p, d in full_files:
         quickcut = tier == "quick" and p.startswith("k/")
         for q in reqs_for(p, ["gopher", "gopherplus", "https", "wap", "gemini"] if quickcut else GET_PROTOS,
@@ -515,7 +669,7 @@ def run(tier):
     live_files = [(p, d) for p, d in files if p in ("s/b4095.bin", "s/b4096.bin", "s/b4097.bin", "s/t4097.txt", "t/inv.txt",
                                                     "n/sp ace.txt") or (tier == "thorough" and p in ("s/b8193.bin", "s/b12289.bin"))]
     LIVE_PROTOS = GET_PROTOS if tier == "thorough" else ["sgopher", "gopherplus", "sgopherplus", "http", "https", "gemini", "spartan"]
-    for p, d in live_files + live_long:
+    for p, d in live_files + live_long + pfx_some[1:3]:
         for q in reqs_for(p, LIVE_PROTOS, ["https"]):
             plan["live"].append((p, d, None) + q)
     for q in reqs_for("big/big.bin", ["sgopherplus", "https", "gemini"] if tier == "quick" else
@@ -587,9 +741,12 @@ def run(tier):
             rq.append((proto, "HEAD", d_.replace(b"GET ", b"HEAD ", 1), t_))
         fcases.append({"fault": fault, "path": target, "selector": req_sel, "rq": rq,
                        "requests": [{"data": gen.lat(d_), "tls": t_} for _, _, d_, t_ in rq]})
+    # ---- several documents in flight at once (one thread per connection, as ThreadingTCPServer runs them) ----
+    cg_sched, cg_live = conc_groups(rng, tier)
     xres = impl_run_parallel([{"op": "c04_history", "tree": htree, "steps": hsteps},
                               {"op": "c04_faults", "tree": ftree,
-                               "cases": [{k_: c_[k_] for k_ in ("fault", "path", "requests")} for c_ in fcases]}], chunks=2)
+                               "cases": [{k_: c_[k_] for k_ in ("fault", "path", "requests")} for c_ in fcases]},
+                              conc_job("sched", cg_sched), conc_job("live", cg_live)], chunks=4)
     for r in xres:
         if not r["ok"]:
             raise RuntimeError(r["err"] + "\n" + r.get("tb", ""))
@@ -604,6 +761,22 @@ def run(tier):
                             "proto": proto, "meth": meth, "req": reqb, "tls": tls, "out": base64.b64decode(o["out_b64"]),
                             "exc": o["exc"], "log": o["log"], "request_index": qi})
     sel_guess.update({sel_of(pth): twin_guess(sel_of(pth), T) for pth in hdocs})
+    conc_stalled = []
+    for mode, specs, xr in (("sched", cg_sched, xres[2]), ("live", cg_live, xres[3])):
+        ddata = {pth: pattern_doc(t_, n_) for pth, t_, n_ in (CONC_DOCS if mode == "sched" else LIVE_CONC_DOCS)}
+        sel_guess.update({sel_of(pth): twin_guess(sel_of(pth), T) for pth in ddata})
+        for gi, (g, gr) in enumerate(zip(specs, xr["res"]["groups"])):
+            if gr.get("stalled"):
+                conc_stalled.append(f"{mode}{gi}")
+            for qi, ((pth, proto), o) in enumerate(zip(g["members"], gr["results"])):
+                reqb, tls = gen.request_bytes(proto, sel_of(pth), gplus="+")
+                records.append({"cfg": f"conc-{mode}{gi}", "path": pth, "sel": sel_of(pth), "data": ddata[pth], "special": None,
+                                "proto": proto, "meth": "GET", "req": reqb, "tls": tls, "out": base64.b64decode(o["out_b64"]),
+                                "exc": o["exc"], "log": o["log"], "request_index": qi, "nok": True,
+                                "conc": {"mode": mode, "group": g}})
+    cov["concurrent"] = {"scheduled_groups": len(cg_sched), "live_groups": len(cg_live),
+                         "transfers": sum(len(g["members"]) for g in cg_sched + cg_live), "scheduler_stalled": conc_stalled,
+                         "policies": sorted({g["policy"] for g in cg_sched}), "live_send_buffer": CONC_SNDBUF}
 
     # gopher0 body of a transformed document = what the handler wrote (reference for TAL)
     handler_out = {}
@@ -616,6 +789,14 @@ def run(tier):
             return {"tree": history_of[r["cfg"]]["tree"], "config": "history", "steps": history_of[r["cfg"]]["steps"],
                     "request_index_in_last_step": r.get("request_index"),
                     "note": "requests follow each change at once, in one long-lived process"}
+        if r.get("conc"):
+            docs = CONC_DOCS if r["conc"]["mode"] == "sched" else LIVE_CONC_DOCS
+            return {"config": "concurrent", "mode": r["conc"]["mode"], "group": r["conc"]["group"],
+                    "request_index_in_group": r["request_index"],
+                    "documents": [list(d_) for d_ in docs if d_[0] in {m[0] for m in r["conc"]["group"]["members"]}],
+                    "note": "the group's requests are served at the same time, one thread per connection (servertype = "
+                            "ThreadingTCPServer); documents are pattern_doc(tag, size); mode sched = in-process, deterministic "
+                            "schedule with blocking points in the middle of every write(); mode live = real server, slow clients"}
         ent = [e for e in tree if e["path"] == r["path"]]
         return {"tree": ent, "config": r["cfg"]}
 
@@ -624,12 +805,15 @@ def run(tier):
     def report(r, what, tag, **extra):
         nonlocal found
         found = True
+        if r.get("conc"):
+            tag += ":concurrent"
+            what += " (several documents in flight at once)"
         reported_tags.add(tag)
         rep = {"what": what, "protocol": r["proto"], "method": r["meth"], "selector": r["sel"], "handlers": r["cfg"],
                "request_latin1": gen.lat(r["req"]), "tls": r["tls"], "file_size": len(r["data"]),
                "response_head_latin1": gen.lat(r["out"][:300]), "response_length": len(r["out"]),
                "exception": r["exc"], "log": r["log"], "kind": "doc"}
-        if len(r["data"]) <= 20000:
+        if len(r["data"]) <= 20000 or r.get("conc"):
             rep["world"] = world_for(r)
         else:
             rep["world"] = {"big": [BIG_BLK, BIG_REPS, BIG_TAIL], "note": "file = 256 x a random 4099-byte block + 577 bytes"}
@@ -717,7 +901,8 @@ def run(tier):
             first = next((i for i, (a, b) in enumerate(zip(body, want)) if a != b), min(len(body), len(want)))
             report(r, "document body differs from the file's bytes" if sp is None
                    else "document body differs from the transformed document", f"body:{r['proto']}:{kind}",
-                   body_bytes=len(body), expected_bytes=len(want), first_difference_at=first)
+                   body_bytes=len(body), expected_bytes=len(want), first_difference_at=first,
+                   delivered_there_latin1=gen.lat(body[first:first + 24]), expected_there_latin1=gen.lat(want[first:first + 24]))
     # HEAD vs GET under injected I/O faults
     nfault = 0
     for case, cres in zip(fcases, xres[1]["res"]["cases"]):
@@ -746,7 +931,8 @@ def run(tier):
     kerrs = [e for e in terr if e]
     byfile = {}       # (cfg, path) -> list of records
     for r in records:
-        byfile.setdefault((r["cfg"], r["path"]), []).append(r)
+        if not r.get("nok"):              # concurrent transfers: judged by the search only (the model serves one request)
+            byfile.setdefault((r["cfg"], r["path"]), []).append(r)
 
     def hkind(r, tag):
         sp = r["special"]
@@ -882,7 +1068,12 @@ def run(tier):
                    "populatefromfs exhaustively over every extension of the loaded tables x case variants x encodings; end to end: "
                    "files of sizes around every multiple of the 4096-byte block up to 12289 plus 1 MiB, binary/CRLF/invalid UTF-8/"
                    "whitespace/markup contents, awkward names, through 9 protocol syntaxes + HEAD, default and full handler lists, and through "
-                   "the real ThreadingTCPServer with real TLS clients (live leg), "
+                   "the real ThreadingTCPServer with real TLS clients (live leg); names with URL-scheme-like prefixes "
+                   "(data:, http:, ... in several spellings and data-URL shapes), URL delimiters after the extension, "
+                   "leading/trailing dots, percent escapes and backslashes, below directories and directly below the root; "
+                   "groups of 2-5 different multi-block documents in flight at once (in-process under a deterministic "
+                   "scheduler with blocking points inside every write(), and on the real threaded server with a small send "
+                   "buffer and slow clients), "
                    "served over a real socket; non-trivial = non-empty file / string with a special character / name with a known type")
     for name, detail in kbroken:
         chk.correspondence_broken(name, detail, found)
@@ -895,6 +1086,8 @@ def run(tier):
         "guess_type is modelled for selectors (always start with '/': no URL scheme); str.lower is exact on ASCII, U+212A and U+0130, table keys are ASCII (checked)",
         "subprocess decompression and TAL expansion are external: the model takes their output as given (gzip plain text known to the harness; TAL output = what plain Gopher delivered)",
         "1 MiB documents are compared through (length, Adler-32) inside Coq and byte for byte by the search",
+        "the advertised type of a name is read from the documented tables by the name's extension alone (last dot of the last path component, not among leading dots): nothing before the extension (scheme-like prefixes, URL delimiters) plays a part; names containing '..' are not generated (such selectors are refused outright)",
+        "concurrent transfers (one thread per connection, servertype = ThreadingTCPServer) are judged by the search only: the model serves one request at a time; a wfile may read the block it is given at any time during write() (as sendall does) but not after it returns; the live concurrent leg sets a small SO_SNDBUF on the listening socket (an operating-system setting) so that handlers block inside write()",
     ]
     return chk.finish("proof")
 
@@ -905,6 +1098,28 @@ def replay(path):
     if rep.get("kind") == "fault":
         print("replay: fault cases are re-run by the check itself (op c04_faults); see the file for the input")
         return 2
+    if rep.get("kind") == "doc" and rep.get("world", {}).get("config") == "concurrent":
+        wd = rep["world"]
+        g = dict(wd["group"], members=[tuple(m) for m in wd["group"]["members"]])
+        job = conc_job(wd["mode"], [g])
+        res = impl_run([job])
+        if not res[0]["ok"]:
+            print(res[0]["err"])
+            return 2
+        bad = 0
+        docs = {d_[0]: pattern_doc(d_[1], d_[2]) for d_ in (CONC_DOCS if wd["mode"] == "sched" else LIVE_CONC_DOCS)}
+        for (pth, proto), o in zip(g["members"], res[0]["res"]["groups"][0]["results"]):
+            out = base64.b64decode(o["out_b64"])
+            parsed = split_response(proto, out)
+            body = parsed[1] if parsed else b""
+            same = body == docs[pth] if proto != "wap" or not pth.endswith(".txt") else None
+            print("%-12s %-10s %8d body bytes, document %8d bytes: %s" % (
+                proto, sel_of(pth), len(body), len(docs[pth]),
+                "not compared here (WML)" if same is None else "identical" if same else "DIFFERENT"))
+            bad += same is False
+        print("group   :", {k: v for k, v in g.items() if k != "members"}, "mode", wd["mode"])
+        print("a document delivered with other bytes than its own:", bool(bad))
+        return 1 if bad else 0
     if rep.get("kind") != "doc" or "tree" not in rep.get("world", {}):
         print("replay: not a replayable document case (see the file for the input)")
         return 2
